@@ -341,7 +341,48 @@ func c19R4(c *Ctx) {
 	if n == 0 {
 		c.bad("handleServerOutput/declines", c.pos(f.Pos()), "the session never hands the terminal back")
 	}
+	// and the converse: a session that is stopped and cleaned declines (hands the terminal back) on every path
+	isLoadOf := func(fl string) func(ssa.Value) bool {
+		return func(v ssa.Value) bool { call, _ := callOf(v); return call != nil && isAtomicOnField(call, fl, "Load") }
+	}
+	done := []assumption{{pred: isLoadOf("stopped"), val: true}, {pred: isLoadOf("cleaned"), val: true}}
+	reachDone := blocksUnder(f, done)
+	allDecline, nr := true, 0
+	eachInstr(f, func(in ssa.Instruction) {
+		r, ok := in.(*ssa.Return)
+		if !ok || !reachDone[r.Block()] {
+			return
+		}
+		nr++
+		if b, known := evalBoolUnder(r.Results[0], done, reachDone, 0); !known || b {
+			allDecline = false
+		}
+	})
+	c.check(allDecline && nr > 0, "handleServerOutput/stopped+cleaned=>declines", c.pos(f.Pos()), "once the session is stopped and cleaned every path declines the output (the terminal is handed back)", "a session that is stopped and cleaned can still claim remote output: it is swallowed for ever")
 	g := c.fn("zmodemTransfer.isTransferringFiles")
+	for _, w := range []struct {
+		name string
+		as   []assumption
+		want bool
+	}{
+		{"stopped+cleaned", []assumption{{pred: isLoadOf("stopped"), val: true}, {pred: isLoadOf("cleaned"), val: true}}, false},
+		{"not-stopped", []assumption{{pred: isLoadOf("stopped"), val: false}}, true},
+		{"stopped,not-cleaned", []assumption{{pred: isLoadOf("stopped"), val: true}, {pred: isLoadOf("cleaned"), val: false}}, true},
+	} {
+		rg := blocksUnder(g, w.as)
+		good, n := true, 0
+		eachInstr(g, func(in ssa.Instruction) {
+			r, ok := in.(*ssa.Return)
+			if !ok || !rg[r.Block()] {
+				return
+			}
+			n++
+			if b, known := evalBoolUnder(r.Results[0], w.as, rg, 0); !known || b != w.want {
+				good = false
+			}
+		})
+		c.check(good && n > 0, "isTransferringFiles@"+w.name, c.pos(g.Pos()), "the input gate is open exactly when the session is stopped and cleaned", "the input gate (typed input held back while a session runs) gives the wrong answer for '"+w.name+"'")
+	}
 	uses := map[string]bool{}
 	for _, ci := range callsIn(g, anyID) {
 		for _, fl := range []string{"stopped", "cleaned"} {
